@@ -13,10 +13,10 @@ from __future__ import annotations
 import ast
 from dataclasses import dataclass, field
 
-from core.guards import FALSE, TRUE, atom, atoms_of, equivalent, evaluate, f_and, f_not, f_or, implies, satisfiable, to_formula
+from core.guards import FALSE, atom, atoms_of, evaluate, f_and, f_not, f_or, implies, to_formula
 from core.loader import AnalysisError, norm, parent
 
-from .c17_model import Model, const_str, parse_atom, strip_wrappers
+from .c17_model import Model, const_str, parse_atom
 from .c17_rules import remaining_helper_calls
 from .c17_view import _walk_own
 from .common import cfg_of
@@ -721,6 +721,11 @@ def classify_atom(M: Model, text: str, n: str, c: str, label_names: set[str]) ->
             return "proper"
         if _is_name(e.args[0], c):
             return "raw"
+    # n.removeprefix("<c>.") == n   <=>   n is NOT a proper sub module of c
+    if isinstance(e, ast.Compare) and len(e.ops) == 1 and isinstance(e.ops[0], ast.Eq):
+        for a, b in ((e.left, e.comparators[0]), (e.comparators[0], e.left)):
+            if _is_name(b, n) and isinstance(a, ast.Call) and isinstance(a.func, ast.Attribute) and a.func.attr == "removeprefix" and _is_name(a.func.value, n) and len(a.args) == 1 and _dotted(a.args[0], c):
+                return "neg:proper"
     # companions of a raw prefix test: what follows the prefix
     if isinstance(e, ast.Compare) and len(e.ops) == 1:
         l, op, r = e.left, e.ops[0], e.comparators[0]
@@ -820,6 +825,7 @@ def labels(C) -> None:
         else:
             ev.kind = "other"
     _rule_default(C, events)
+    C.all_events = events
     aliased = [ev for ev in events if ev.kind == "aliased"]
     if not aliased:
         opaque = [ev for ev in events if ev.kind == "other"] or remaining_helper_calls(C)
@@ -1109,7 +1115,7 @@ def _judge_selection(C, ev: Event, sel: Selection, label_names: set[str], has_se
         kinds = {a: classify_atom(M, a, n, c, label_names) for a in atoms_of(P)}
     except AnalysisError as e:  # too many atoms
         return [("unsure", r1, "ancestor test", f"match condition too large to enumerate ({e})", sel.where)]
-    by = lambda *ks: [atom(a) for a, k in kinds.items() if k in ks]  # noqa: E731
+    by = lambda *ks: [atom(a) for a, k in kinds.items() if k in ks] + [f_not(atom(a)) for a, k in kinds.items() if k.startswith("neg:") and k[4:] in ks]  # noqa: E731
     guards = by("label-text", "labelled")
     # the match predicate proper: P with the 'already labelled' guards assumed to let the store through
     env_fix = {a: (k == "label-text") for a, k in kinds.items() if k in ("label-text", "labelled")}
@@ -1184,6 +1190,10 @@ def _judge_selection(C, ev: Event, sel: Selection, label_names: set[str], has_se
         out.append(("bad", r2, what_f, f"whether a more specific alias has already been applied is decided by comparing the label text with the module name (`{label_text[0][1]}`): an alias that equals the module's own name looks like 'not labelled yet' and is overwritten by a less specific alias", ev.node))
         return out
     if disc == "every" and labelled:
+        prefilled = [e2 for e2 in getattr(C, "all_events", []) if e2.kind == "default" and e2.domain == "all" and getattr(e2.store or e2.node, "lineno", 0) < getattr(ev.node, "lineno", 0) and e2.how == "store"]
+        if prefilled:
+            out.append(("bad", r2, what_f, f"`{labelled[0][1]}` is meant to tell whether a more specific alias has been applied, but the mapping was filled with the default labels before (`{norm(prefilled[0].node, 60)}`): it holds for every module and no alias is ever applied", ev.node))
+            return out
         disc = "first"  # a structural 'already labelled' test: only the first matching candidate stores
     if disc == "every":
         disc = "last"
@@ -1213,10 +1223,6 @@ def _judge_selection(C, ev: Event, sel: Selection, label_names: set[str], has_se
         else:
             out.append(("unsure", r2, what_o, f"order of the ancestors `{norm(sel.D, 80)}` not recognised", sel.where))
     return out
-
-
-def _before(a: ast.AST, b: ast.AST) -> bool:
-    return getattr(a, "lineno", 0) < getattr(b, "lineno", 0)
 
 
 def _show(f) -> str:
